@@ -23,7 +23,8 @@ namespace GeographicLib {
       throw GeographicErr("Latitude " + Utility::str(lat)
                           + "d not in [-" + to_string(Math::qd)
                           + "d, " + to_string(Math::qd) + "d]");
-    if (isnan(lat) || isnan(lon)) {
+    // an infinite lon is normalized to NaN
+    if (isnan(lat) || !isfinite(lon)) {
       gars = "INVALID";
       return;
     }
